@@ -65,5 +65,18 @@ PROP = {
                 H("c15_svc_from_str_n14", "B", tier="thorough", bound="strings <= 14 bytes", what="ServiceAddr::from_str incl. Wildcard_M and <SVC:0xhhhh>_M", timeout=3600),
             ],
         },
+        {
+            "id": "sciparse-text-addr", "engine": "kani", "package": "sciparse",
+            "crate_dir": "crates/libs/sciparse",
+            "module": "/verif/kani/sciparse/text_addr.rs",
+            "mod_path": "scion::address::addr::verif_text_addr",
+            "hooks": [("crates/libs/sciparse/src/scion/address/addr.rs", "mod verif_text_addr;")],
+            "anchors": [("crates/libs/sciparse/src/scion/address/addr.rs", ["parse_scion_addr"])],
+            "functions": ["parse_scion_addr"],
+            "harnesses": [
+                H("c15_scion_addr_split_n7", "B", bound="strings <= 7 bytes over {0,1,f,-,:,',',x}; host grammar replaced by a recording stub",
+                  what="ISD-AS,host splitter: total; host part is exactly the text after the first comma up to the end", timeout=1800),
+            ],
+        },
     ],
 }
